@@ -103,23 +103,19 @@ theorem loop_inv (S : σ → Prop) (ltD : δ → δ → Bool) :
     cases ds with
     | nil => exact ⟨by simpa [loop] using h1, by simpa [loop] using h2⟩
     | cons d ds =>
-      by_cases hv : (d.valid && decide (d.near < c.size)) = true
-      · have hit : (rc (σ := σ) (δ := δ)).iterate c n d =
-            (c.push ⟨d.st, some d.near, n⟩, some (c.size, d.sat, d.dist)) := by
+      have I : TreeWf ((rc (σ := σ) (δ := δ)).iterate c n d).core ∧
+          RootsIn ((rc (σ := σ) (δ := δ)).iterate c n d).core S := by
+        by_cases hv : (d.valid && decide (d.near < c.size)) = true
+        · have hn : d.near < c.size := by
+            simp only [Bool.and_eq_true, decide_eq_true_eq] at hv; exact hv.2
           simp only [rc, rrtCore, hv, if_true]
-        have hn : d.near < c.size := by
-          simp only [Bool.and_eq_true, decide_eq_true_eq] at hv; exact hv.2
-        have w := wf_push_child c d.st d.near n hn h1
-        have r := roots_push_child c d.st d.near n S h2
-        cases hs : d.sat with
-        | true => simp only [loop, hit, hs, if_true]; exact ⟨w, r⟩
-        | false =>
-          simp only [loop, hit, hs, Bool.false_eq_true, if_false]
-          exact ih ds _ _ _ w r
-      · have hit : (rc (σ := σ) (δ := δ)).iterate c n d = (c, none) := by
-          simp only [rc, rrtCore, hv, if_false, Bool.false_eq_true]
-        simp only [loop, hit]
-        exact ih ds c s n h1 h2
+          exact ⟨wf_push_child c d.st d.near n hn h1, roots_push_child c d.st d.near n S h2⟩
+        · simp only [rc, rrtCore, hv, if_false, Bool.false_eq_true]
+          exact ⟨h1, h2⟩
+      simp only [loop]
+      split
+      · exact I
+      · exact ih ds _ _ _ I.1 I.2
 
 section generic
 variable {D C : Type}
